@@ -475,8 +475,148 @@ def rule_bp_decision(repo: Repo, rep: Report) -> int:
     return n
 
 
+#: the message equations of BP on the polar butterfly (u = upper node mask[i], l = lower node mask[i] + add_k; layer 0 = i,
+#: layer 1 = i + 1): target -> (check-node operands, summand added outside the check node)
+BP_POLAR_EQ = {
+    ("R", 1, "u"): (frozenset({frozenset({("R", 0, "u")}), frozenset({("L", 1, "l"), ("R", 0, "l")})}), None),
+    ("R", 1, "l"): (frozenset({frozenset({("R", 0, "u")}), frozenset({("L", 1, "u")})}), ("R", 0, "l")),
+    ("L", 0, "u"): (frozenset({frozenset({("L", 1, "u")}), frozenset({("L", 1, "l"), ("R", 0, "l")})}), None),
+    ("L", 0, "l"): (frozenset({frozenset({("R", 0, "u")}), frozenset({("L", 1, "u")})}), ("L", 1, "l")),
+}
+
+
+def rule_bp_polar_schedule(repo: Repo, rep: Report) -> int:
+    """update_right / update_left of the polar BP decoder: every store into R / L is parsed into (array, layer, node) terms
+    and compared with the four message equations of the butterfly; each message is extrinsic (it never reads the message
+    of the opposite direction on its own edge)."""
+    ci = repo.cls(PBP, "BeliefPropagationPolarDecoder")
+    n = 0
+
+    def ref(e: ast.AST, iv: str):
+        if not (isinstance(e, ast.Subscript) and isinstance(e.value, ast.Name) and e.value.id in ("R", "L") and isinstance(e.slice, ast.Tuple) and len(e.slice.elts) == 3):
+            return None
+        lay, pos = unparse(e.slice.elts[1]).replace(" ", ""), unparse(e.slice.elts[2]).replace(" ", "")
+        layer = 0 if lay == iv else (1 if lay in (f"{iv}+1", f"1+{iv}") else None)
+        node = "u" if pos == f"mask[{iv}]" else ("l" if pos in (f"mask[{iv}]+add_k", f"add_k+mask[{iv}]") else None)
+        if layer is None or node is None:
+            return None
+        return (e.value.id, layer, node)
+
+    def terms(e: ast.AST, iv: str):
+        """a sum of message references as a frozenset, None if anything else occurs"""
+        if isinstance(e, ast.BinOp) and isinstance(e.op, ast.Add):
+            a, b = terms(e.left, iv), terms(e.right, iv)
+            return None if a is None or b is None else a | b
+        r_ = ref(e, iv)
+        return None if r_ is None else frozenset({r_})
+
+    for mname in ("update_right", "update_left"):
+        fi = repo.method(ci, mname)
+        loops = [l_ for l_ in ast.walk(fi.node) if isinstance(l_, ast.For) and isinstance(l_.target, ast.Name)]
+        stores = [(l_.target.id, s_) for l_ in loops for s_ in ast.walk(l_) if isinstance(s_, ast.Assign) and len(s_.targets) == 1 and isinstance(s_.targets[0], ast.Subscript) and isinstance(s_.targets[0].value, ast.Name) and s_.targets[0].value.id in ("R", "L")]
+        rep.floor(f"{mname}: message stores", len(stores), 2)
+        import copy as _copy
+
+        # temporaries defined once inside the loops (`upper = mask[i]`, `r_up = R[:, i, upper]`) are written out
+        ldefs: Dict[str, ast.AST] = {}
+        for l_ in loops:
+            for s_ in ast.walk(l_):
+                if isinstance(s_, ast.Assign) and len(s_.targets) == 1 and isinstance(s_.targets[0], ast.Name) and s_.targets[0].id not in ("add_k", "mask", "i_back", "R", "L"):
+                    ldefs[s_.targets[0].id] = None if s_.targets[0].id in ldefs else s_.value
+
+        class _Sub(ast.NodeTransformer):
+            def visit_Name(self, nd):
+                if isinstance(nd.ctx, ast.Load) and ldefs.get(nd.id) is not None:
+                    return self.visit(_copy.deepcopy(ldefs[nd.id]))
+                return nd
+
+        for iv, st in stores:
+            n += 1
+            tgt_e = _Sub().visit(_copy.deepcopy(st.targets[0]))
+            v = _Sub().visit(_copy.deepcopy(st.value))
+            tgt = ref(tgt_e, iv)
+            extra = None
+            call = v
+            if isinstance(v, ast.BinOp) and isinstance(v.op, ast.Add):
+                cands = [(v.left, v.right), (v.right, v.left)]
+                call, extra_e = next(((c_, x_) for c_, x_ in cands if isinstance(c_, ast.Call)), (None, None))
+                extra = ref(extra_e, iv) if extra_e is not None else None
+                if call is None or extra is None:
+                    tgt = None
+            if tgt is None or not (isinstance(call, ast.Call) and attr_chain(call.func) == "self.checknode" and len(call.args) == 2) or tgt not in BP_POLAR_EQ:
+                rep.undecided("BP-SCHEDULE", fi, st, "message equation not of the form X[:, layer, node] = checknode(a, b) [+ c] over R / L references (code shape not recognised)", node=st)
+                continue
+            ops = [terms(a_, iv) for a_ in call.args]
+            if any(o_ is None for o_ in ops):
+                rep.undecided("BP-SCHEDULE", fi, st, "check-node operand is not a sum of R / L message references", node=st)
+                continue
+            want_ops, want_extra = BP_POLAR_EQ[tgt]
+            got = (frozenset(ops), extra)
+
+            def show(t_):
+                return f"{t_[0]}[{'i+1' if t_[1] else 'i'}, {'upper' if t_[2] == 'u' else 'lower'}]"
+
+            if got == (want_ops, want_extra):
+                rep.ok("BP-SCHEDULE", fi, st, f"{show(tgt)} follows the butterfly equation (extrinsic: it does not read the opposite message of its own edge)", node=st)
+            else:
+                wtxt = " , ".join(" + ".join(sorted(show(x_) for x_ in o_)) for o_ in sorted(want_ops, key=lambda z: sorted(z))) + (f" ; plus {show(want_extra)}" if want_extra else "")
+                gtxt = " , ".join(" + ".join(sorted(show(x_) for x_ in o_)) for o_ in sorted(got[0], key=lambda z: sorted(z))) + (f" ; plus {show(extra)}" if extra else "")
+                rep.violation("BP-SCHEDULE", fi, st, f"{show(tgt)} is computed from checknode({gtxt}); the message equation of the polar butterfly is checknode({wtxt}): a message from the wrong layer / node (or the message of the opposite direction on the same edge) is fed back, so beliefs are double counted and noise-free words are decoded wrongly in the min-sum regime", node=st)
+    return n
+
+
+SHAPE_ONLY = ("to", "reshape", "view", "float", "double", "clone", "contiguous", "detach", "flatten", "unsqueeze", "squeeze", "cpu", "cuda", "type", "type_as", "view_as", "requires_grad_")
+
+
+def rule_llr_passthrough(repo: Repo, rep: Report) -> int:
+    """The polar decoders hand the received LLRs to the recursion / message passing as they are: between the entry of
+    forward and the decoding call the LLR variable is only reshaped / moved.  The sum-product check node
+    2 atanh(tanh(a/2) tanh(b/2)) is not homogeneous, so a rescaling of the word (by its peak, its mean, a constant)
+    changes the decisions of the textbook rule; clamping or squashing loses reliability information."""
+    n = 0
+    for file, cname in ((SC, "SuccessiveCancellationDecoder"), (PBP, "BeliefPropagationPolarDecoder")):
+        ci = repo.cls(file, cname)
+        fi = repo.method(ci, "forward")
+        params = [p_ for p_ in fi.params if p_ != "self"]
+        if not params:
+            continue
+        names = {params[0]}
+        for d_ in ast.walk(fi.node):
+            if isinstance(d_, ast.FunctionDef) and d_ is not fi.node and d_.args.args:
+                names.add(d_.args.args[0].arg)
+        n += 1
+        bad = und = None
+        for st in ast.walk(fi.node):
+            if not (isinstance(st, (ast.Assign, ast.AugAssign)) and any(isinstance(t_, ast.Name) and t_.id in names for t_ in (st.targets if isinstance(st, ast.Assign) else [st.target]))):
+                continue
+            if isinstance(st, ast.AugAssign):
+                bad = bad or st
+                continue
+            e = st.value
+            while isinstance(e, ast.Call) and isinstance(e.func, ast.Attribute) and e.func.attr in SHAPE_ONLY:
+                e = e.func.value
+            if isinstance(e, ast.Name) and e.id in names:
+                continue
+            uses_self = any(isinstance(x_, ast.Name) and x_.id in names for x_ in ast.walk(st.value))
+            arith = any(isinstance(x_, ast.BinOp) for x_ in ast.walk(st.value)) or any(isinstance(x_, ast.Call) and (call_name(x_) or unparse(x_.func)).split(".")[-1] in ("clamp", "clip", "tanh", "sign", "normalize", "abs", "sigmoid", "softmax", "round", "nan_to_num") for x_ in ast.walk(st.value))
+            if uses_self and arith:
+                bad = bad or st
+            else:
+                und = und or st
+        construct = f"{cname}.forward: received LLRs up to the decoding call"
+        if bad is not None:
+            rep.violation("SC-SHAPE", fi, f"{construct}: {unparse(bad)[:80]}", "the received LLRs are rescaled / squashed before decoding: the sum-product check node 2 atanh(tanh(a/2) tanh(b/2)) is not invariant under a scaling of its inputs (only min-sum is), so the decisions differ from the textbook rule applied to the channel LLRs", node=bad)
+        elif und is not None:
+            rep.undecided("SC-SHAPE", fi, f"{construct}: {unparse(und)[:80]}", "the LLR variable is re-bound to something that is not a reshape / device move of itself", node=und)
+        else:
+            rep.ok("SC-SHAPE", fi, construct, "only reshaped / moved: the decoder works on the channel LLRs themselves", node=fi.node)
+    return n
+
+
 def run(repo: Repo, rep: Report, tier: str) -> None:
     n = rule_kernel(repo, rep)
+    n += rule_bp_polar_schedule(repo, rep)
+    n += rule_llr_passthrough(repo, rep)
     n += rule_bp_decision(repo, rep)
     n += rule_rank_table(repo, rep)
     n += rule_info_set(repo, rep)
@@ -491,4 +631,4 @@ def run(repo: Repo, rep: Report, tier: str) -> None:
         "frozen value agreement between encoder, SC leaf and polar-BP initialisation (with the library's LLR polarity)",
         "SC recursion shape: f/g functions, partial sums, half splits, interleaved variant, helper closed forms",
     ]
-    rep.undecided_clauses += ["equality of the stage-wise XOR network with the Kronecker-power matrix", "BP schedule correctness", "SC output = textbook rule as values"]
+    rep.undecided_clauses += ["equality of the stage-wise XOR network with the Kronecker-power matrix", "convergence of the BP schedule", "SC output = textbook rule as values"]
